@@ -37,9 +37,10 @@ const (
 	MechCommit     Mech = iota // builder as is: it implements frontend.Committer
 	MechNative                 // builder wrapped to implement frontend.Rangechecker
 	MechForcedBits             // USE_BIT_DECOMPOSITION_RANGE_CHECK=true
+	MechNativeThin             // builder wrapped by a thin struct that only adds Check: Compiler() is the inner builder
 )
 
-func (m Mech) String() string { return [...]string{"commit", "native", "forcedbits"}[m] }
+func (m Mech) String() string { return [...]string{"commit", "native", "forcedbits", "native-thin"}[m] }
 
 type kv interface {
 	SetKeyValue(key, value any)
@@ -56,6 +57,17 @@ func (b nativeBuilder) Check(v frontend.Variable, bits int) {
 func (b nativeBuilder) Compiler() frontend.Compiler { return b }
 func (b nativeBuilder) SetKeyValue(key, value any)  { b.Builder.(kv).SetKeyValue(key, value) }
 func (b nativeBuilder) GetKeyValue(key any) any     { return b.Builder.(kv).GetKeyValue(key) }
+
+// nativeThin is the other way to offer native range checks: a struct that embeds the builder and only
+// adds Check.  Its Compiler() (promoted from the embedded builder) is the wrapped builder itself, which is
+// NOT a Rangechecker.
+type nativeThin struct{ frontend.Builder }
+
+func (b nativeThin) Check(v frontend.Variable, bits int) {
+	stdbits.ToBinary(b.Builder, v, stdbits.WithNbDigits(bits))
+}
+func (b nativeThin) SetKeyValue(key, value any) { b.Builder.(kv).SetKeyValue(key, value) }
+func (b nativeThin) GetKeyValue(key any) any    { return b.Builder.(kv).GetKeyValue(key) }
 
 type System struct {
 	Kind      Kind
@@ -94,11 +106,14 @@ func Compile(kind Kind, mech Mech, nIn, nExp int, f gad.Fn) (sys *System, err er
 		nb = scs.NewBuilder
 	}
 	inner := nb
-	if mech == MechNative {
+	if mech == MechNative || mech == MechNativeThin {
 		nb = func(field *big.Int, cfg frontend.CompileConfig) (frontend.Builder, error) {
 			b, err := inner(field, cfg)
 			if err != nil {
 				return nil, err
+			}
+			if mech == MechNativeThin {
+				return nativeThin{b}, nil
 			}
 			return nativeBuilder{b}, nil
 		}
@@ -175,11 +190,14 @@ func CompileCircuit(kind Kind, mech Mech, c frontend.Circuit) (sys *System, err 
 		nb = scs.NewBuilder
 	}
 	inner := nb
-	if mech == MechNative {
+	if mech == MechNative || mech == MechNativeThin {
 		nb = func(field *big.Int, cfg frontend.CompileConfig) (frontend.Builder, error) {
 			b, err := inner(field, cfg)
 			if err != nil {
 				return nil, err
+			}
+			if mech == MechNativeThin {
+				return nativeThin{b}, nil
 			}
 			return nativeBuilder{b}, nil
 		}
